@@ -351,7 +351,7 @@ func c05Corpus(thorough bool) []c05Prog {
 func c05(r *rt.Run) {
 	r.Assumptions = []string{
 		"differential oracle: all presentations of one base program must give the same canonical fact set (names mapped back; collected lists as multisets; temporal facts with their intervals)",
-		"hash-map iteration order: this check re-runs each program several times (a sampled dimension, stated as such); the exhaustively explored presentation dimensions are clause/fact order, variable and predicate renaming, package wrapping, store kind and WithDeterministicOrder",
+		"hash-map iteration order is owned by the explorer (vmap build overlay: every range-over-map in the repository iterates in an order the harness chooses): 4 global modes and every single-point deviation are executed; the plain re-runs remain as a cross-check",
 	}
 	r.SetBudget(240*time.Second, 3000*time.Second)
 	corpus := c05Corpus(r.Thorough())
@@ -439,6 +439,7 @@ func c05(r *rt.Run) {
 		}
 	})
 	_ = oracle.Key
-	r.Finish("base programs: 4-rule recursive programs of pool G, negation pool N, pairs of aggregating rules (pool A), temporal chains (pool T); for each: every clause order (<=4 clauses: all permutations), every fact order (rotations, reversal, transpositions), 2 consistent variable renamings, 2 predicate renamings, package wrapping, 8 store kinds, WithDeterministicOrder, and repeated runs; " +
+	c05MapOrder(r)
+	r.Finish("base programs: 4-rule recursive programs of pool G, negation pool N, pairs of aggregating rules (pool A), temporal chains (pool T); for each: every clause order (<=4 clauses: all permutations), every fact order (rotations, reversal, transpositions), 2 consistent variable renamings, 2 predicate renamings, package wrapping, 8 store kinds, WithDeterministicOrder, and repeated runs; map iteration order: 4 global modes + every single deviation for a sub-corpus; " +
 		"all variants must produce the same canonical fact set; non-trivial = base programs that derive facts")
 }
